@@ -32,6 +32,29 @@ CLAIMED["C19"] = {
     "design": "DESIGN.md section 4 C19",
 }
 
+SCHED_NOTE = ("Trusted: the model mirrors Program.run/Command.run by hand (pre-pass, peeling cycle check, leaf selection as "
+              "coded, memoised pull with fuel = Python stack); abstract command semantics F (Section variable); probe "
+              "library; interleaving of pulls inside execute is not compared (only counts, values, identities).")
+CLAIMED["C01"] = {
+    "text": "Rocq theorems, for every command semantics F and every program that passes the pre-pass (any size, fan-in/out, "
+            "direct/list/nested references, any file order): run() succeeds, every command is entered and left exactly once, "
+            "nothing else executes, every result is F of the memoised results it references (C01_exactly_once, by an "
+            "invariant over the fuelled DFS generalised over the stack of unfinished commands); every acyclic program passes "
+            "the pre-pass; any history of further run()/result accesses changes nothing (C01_history). Model tied to the "
+            "code by differential runs on random DAGs with probe commands.",
+    "note": SCHED_NOTE, "technique": "Rocq proof (invariant/induction over fuelled DFS) + differential correspondence on random DAGs",
+    "design": "DESIGN.md section 4 C01",
+}
+CLAIMED["C14"] = {
+    "text": "Rocq theorems: every program with a reference cycle (any size, self-loops, tails, extra components, direct or "
+            "list references, any file order, any stack depth, any state) is rejected with the recursive-model outcome and "
+            "executes nothing (C14); a successful run has finished every command (C14_no_partial_success); acyclic programs "
+            "are never rejected. The model's cycle check mirrors the peeling loop of Program.run; tied by exhaustive "
+            "correspondence on all digraphs on <=3 (quick) / <=4 (thorough) commands plus random larger ones.",
+    "note": SCHED_NOTE, "technique": "Rocq proof (peeling/stuck-set argument) + exhaustive small-scope correspondence",
+    "design": "DESIGN.md section 4 C14",
+}
+
 NOT_YET = "check not built yet (planned with the same technique, see DESIGN.md section 4); not claimed in this commit"
 
 
